@@ -441,12 +441,11 @@ func encodeRefMessage(rt *rapid.T, name string, rev int) *ref.Enc {
 		}
 		e.Fields = e.Fields[1:]
 	case "ClientInfo":
-		e2 := &ref.Enc{}
-		ref.EncodeQuery(e2, ref.Query{Info: info}, max(rev, ref.RevSettingsAsStrings))
-		// client info starts after code (1) and the empty id string (1)
-		e.B = append([]byte(nil), e2.B[2:]...)
+		ref.EncodeClientInfo(e, info, max(rev, ref.RevSettingsAsStrings))
 	case "ClientData":
-		e.Str([]byte(s("t")), ref.RName)
+		if rev >= ref.RevTempTables {
+			e.Str([]byte(s("t")), ref.RName)
+		}
 	case "BlockInfo":
 		ref.EncodeBlockInfo(e, ref.BlockInfo{Overflows: rapid.Bool().Draw(rt, "ov"), BucketNum: rapid.Int32().Draw(rt, "bn")})
 	case "Progress":
